@@ -30,8 +30,12 @@ func (b *Batcher) Accept(ctx context.Context, logs ...LogWithLedger) ([]error, e
 	for ind, log := range logs {
 		ret, err := b.batcher.Send(ctx, log)
 		if err != nil {
-			itemsErrors[ind] = fmt.Errorf("failed to send log to the batcher: %w", err)
-			continue
+			// Stop at the first log the batcher did not take: handing over the following ones (which can
+			// succeed again, e.g. when the context has just been cancelled) would deliver a page with a hole.
+			for i := ind; i < len(logs); i++ {
+				itemsErrors[i] = fmt.Errorf("failed to send log to the batcher: %w", err)
+			}
+			break
 		}
 		operations[ind] = ret
 	}
